@@ -12,9 +12,11 @@ import (
 	"runtime"
 	"strconv"
 	"sync"
+	"sync/atomic"
 	"testing"
 	"testing/synctest"
 	"time"
+	"verif/sim/yieldpt"
 )
 
 type MeterOp struct {
@@ -41,6 +43,9 @@ type meterSim struct {
 	parked []*parked
 	nextID int
 	ending bool
+	// draining: the script is over (or aborted); frames are no longer held in
+	// flight, because nobody is left to land them while a ticker waits for the lock
+	draining bool
 
 	// model
 	phase     int // index of the current phase (-1 before the first Start)
@@ -57,6 +62,14 @@ type meterSim struct {
 	slow      []int // per intermediate frame: > 0 = the frame is held "in flight" until the scheduler lets it land
 	slowi     int
 	inflight  []chan bool
+
+	// the worker can be parked at the entry of Start() / Done() (yield point
+	// before the meter's Lock, where it holds no lock yet)
+	workerGoid   atomic.Uint64
+	expectPark   atomic.Bool
+	workerPark   chan struct{}
+	workerResume chan struct{}
+	midOp        int
 }
 
 func (m *meterSim) logEv(actor, ev string, n int) {
@@ -82,7 +95,7 @@ func (m *meterSim) Write(b []byte) (int, error) {
 	if len(b) > 0 && b[len(b)-1] == '\r' {
 		m.mu.Lock()
 		hold := false
-		if len(m.slow) > 0 && !m.ending {
+		if len(m.slow) > 0 && !m.ending && !m.draining {
 			hold = m.slow[m.slowi%len(m.slow)] > 0
 			m.slowi++
 		}
@@ -161,6 +174,7 @@ type MeterRunResult struct {
 	Frames int
 	Events []Event
 	Stale  int
+	MidOp  int // times the worker was parked inside Start()/Done()
 }
 
 // RunMeterSims plays several (script, schedule) pairs in one bubble (a
@@ -193,6 +207,17 @@ func runMeterSimInBubble(api MeterAPI, script MeterScript, sched []int) MeterRun
 			m.slow = append(m.slow, []int{0, 1, 1, 0, 1}[k%5])
 		}
 	}
+	m.workerPark, m.workerResume = make(chan struct{}), make(chan struct{})
+	lockHook := func() {
+		if !m.expectPark.Load() || yieldpt.Goid() != m.workerGoid.Load() {
+			return
+		}
+		m.expectPark.Store(false)
+		m.workerPark <- struct{}{}
+		<-m.workerResume
+	}
+	yieldpt.LockHook.Store(&lockHook)
+	defer yieldpt.LockHook.Store(nil)
 	if !api.SetYield(m.yield) {
 		return MeterRunResult{V: &Violation{"C18/hook-missing", "the binary was built without the verif tag"}}
 	}
@@ -216,6 +241,7 @@ func runMeterSimInBubble(api MeterAPI, script MeterScript, sched []int) MeterRun
 		baton := make(chan MeterOp)
 		stepDone := make(chan struct{})
 		go func() {
+			m.workerGoid.Store(yieldpt.Goid())
 			for op := range baton {
 				switch op.Op {
 				case "start":
@@ -283,7 +309,40 @@ func runMeterSimInBubble(api MeterAPI, script MeterScript, sched []int) MeterRun
 		// twice (one P: the worker has then either finished or blocked) the
 		// scheduler lands the frames in flight and waits for the worker.
 		step := func(op MeterOp) {
+			if op.Op == "start" || op.Op == "done" {
+				m.expectPark.Store(true)
+			}
 			baton <- op
+			if op.Op == "start" || op.Op == "done" {
+				// the worker stops once inside the operation, at the meter's
+				// Lock (no lock held yet): a ticker parked between its tick and
+				// the lock may go first
+				select {
+				case <-stepDone: // no yield point compiled in
+					m.expectPark.Store(false)
+					return
+				case <-m.workerPark:
+					m.mu.Lock()
+					np, nf := len(m.parked), len(m.inflight)
+					m.logEv("worker", "parked-inside-"+op.Op, np)
+					m.midOp++
+					m.mu.Unlock()
+					for np > 0 && nf == 0 && choose(2) == 1 {
+						m.mu.Lock()
+						k := choose(len(m.parked))
+						p := m.parked[k]
+						m.parked = append(m.parked[:k], m.parked[k+1:]...)
+						m.logEv("sched", "release-inside-"+op.Op, p.id)
+						m.mu.Unlock()
+						p.ch <- true
+						synctest.Wait()
+						m.mu.Lock()
+						np, nf = len(m.parked), len(m.inflight)
+						m.mu.Unlock()
+					}
+					m.workerResume <- struct{}{}
+				}
+			}
 			if op.Op != "sleep" {
 				for i := 0; i < 3; i++ {
 					select {
@@ -390,6 +449,9 @@ func runMeterSimInBubble(api MeterAPI, script MeterScript, sched []int) MeterRun
 		for ; oi < len(ops) && !bad; oi++ {
 			step(ops[oi])
 		}
+		m.mu.Lock()
+		m.draining = true
+		m.mu.Unlock()
 		land(-1)
 		close(baton)
 		// drain: stale tickers may wake once more; none may print
@@ -436,7 +498,7 @@ func runMeterSimInBubble(api MeterAPI, script MeterScript, sched []int) MeterRun
 			m.violation = &Violation{"C18/final-line-missing", fmt.Sprintf("%d phases finished, %d final lines written", done, len(m.finalSeen))}
 		}
 	}
-	return MeterRunResult{V: m.violation, Frames: m.frames, Events: m.events, Stale: m.staleWake}
+	return MeterRunResult{V: m.violation, Frames: m.frames, Events: m.events, Stale: m.staleWake, MidOp: m.midOp}
 }
 
 // GenMeterScript draws a phase script.
